@@ -423,3 +423,23 @@ fn probe_c17_same_file_shared_in_two_epochs() {
     println!("F17 sender side: {:?} / {:?}", am.decrypt_from_download(&up1.encrypted_data, &r1).map(|d| d.len()).map_err(|e| e.to_string()),
              am.decrypt_from_download(&up2.encrypted_data, &r2).map(|d| d.len()).map_err(|e| e.to_string()));
 }
+
+/// F18 candidate: a welcome rumor without an id is refused (MissingRumorEventId) only after the pending group and its relays were stored.
+#[test]
+fn probe_c06_refused_welcome_without_id_leaves_group_behind() {
+    let alice_keys = Keys::generate();
+    let bob_keys = Keys::generate();
+    let alice = create_test_mdk();
+    let bob = create_test_mdk();
+    let admins = vec![alice_keys.public_key()];
+    let bob_kp = create_key_package_event(&bob, &bob_keys);
+    let res = alice.create_group(&alice_keys.public_key(), vec![bob_kp], create_nostr_group_config_data(admins)).unwrap();
+    let mut rumor = res.welcome_rumors[0].clone();
+    rumor.id = None;
+    println!("F18 groups before: {}", bob.get_groups().unwrap().len());
+    let r = bob.process_welcome(&EventId::all_zeros(), &rumor);
+    println!("F18 process_welcome: {:?}", r.as_ref().map(|_| "ok").map_err(|e| e.to_string()));
+    let gs = bob.get_groups().unwrap();
+    println!("F18 groups after the refused welcome: {} {:?}", gs.len(), gs.iter().map(|g| (g.name.clone(), g.state)).collect::<Vec<_>>());
+    println!("F18 pending welcomes: {}", bob.get_pending_welcomes(None).unwrap().len());
+}
